@@ -161,6 +161,33 @@ func (tc *typechecker) checkNodesError(nodes []ast.Node) (newNodes []ast.Node, e
 	return newNodes, err
 }
 
+// forInToForRange returns the 'for range' statement that replaces the
+// 'for in' statement node.
+func (tc *typechecker) forInToForRange(node *ast.ForIn) *ast.ForRange {
+	// Check range expression.
+	expr := node.Expr
+	ti := tc.checkExpr(expr)
+	if ti.Nil() {
+		panic(tc.errorf(node, "cannot range over nil"))
+	}
+	ti.setValue(nil)
+	ipos := node.Ident.Pos()
+	blank := ast.NewIdentifier(ipos.WithEnd(ipos.Start), "_")
+	aPos := ipos.WithEnd(node.Expr.Pos().End)
+	var lhs []ast.Expression
+	switch ti.Type.Kind() {
+	default:
+		lhs = []ast.Expression{blank, node.Ident}
+	case reflect.Map:
+		lhs = []ast.Expression{node.Ident, blank}
+	case reflect.Chan:
+		lhs = []ast.Expression{node.Ident}
+	}
+	assignment := ast.NewAssignment(aPos, lhs, ast.AssignmentDeclaration, []ast.Expression{expr})
+	assignment.End = node.Expr.Pos().End
+	return ast.NewForRange(node.Pos(), assignment, node.Body, node.Else)
+}
+
 // checkNodes type checks one or more statements, returning the new tree branch
 // with transformations, if any. Panics on error.
 func (tc *typechecker) checkNodes(nodes []ast.Node) []ast.Node {
@@ -270,29 +297,8 @@ nodesLoop:
 			tc.terminating = node.Condition == nil && !tc.hasBreak[node]
 
 		case *ast.ForIn:
-			// Check range expression.
-			expr := node.Expr
-			ti := tc.checkExpr(expr)
-			if ti.Nil() {
-				panic(tc.errorf(node, "cannot range over nil"))
-			}
-			ti.setValue(nil)
 			// Replace the node with a ForRange node.
-			ipos := node.Ident.Pos()
-			blank := ast.NewIdentifier(ipos.WithEnd(ipos.Start), "_")
-			aPos := ipos.WithEnd(node.Expr.Pos().End)
-			var lhs []ast.Expression
-			switch ti.Type.Kind() {
-			default:
-				lhs = []ast.Expression{blank, node.Ident}
-			case reflect.Map:
-				lhs = []ast.Expression{node.Ident, blank}
-			case reflect.Chan:
-				lhs = []ast.Expression{node.Ident}
-			}
-			assignment := ast.NewAssignment(aPos, lhs, ast.AssignmentDeclaration, []ast.Expression{expr})
-			assignment.End = node.Expr.Pos().End
-			nodes[i] = ast.NewForRange(node.Pos(), assignment, node.Body, node.Else)
+			nodes[i] = tc.forInToForRange(node)
 			continue
 
 		case *ast.ForRange:
@@ -867,6 +873,11 @@ nodesLoop:
 
 		case *ast.Label:
 			tc.scopes.DeclareLabel(node)
+			if forIn, ok := node.Statement.(*ast.ForIn); ok {
+				// Replace the 'for in' statement now: the labeled branch
+				// statements in its body refer to the statement of the label.
+				node.Statement = tc.forInToForRange(forIn)
+			}
 			if node.Statement != nil {
 				_ = tc.checkNodes([]ast.Node{node.Statement})
 			}
